@@ -1102,8 +1102,11 @@ def m_slice_reverse(eng, ctx, f, path, args, dty):
 
 # ------------------------------------------------------------------------------------------------ iterators
 def iter_items(eng, c, it):
-    """generator: the remaining items of an iterator value (adaptor closures are executed as real code, in order)"""
-    it = load(eng, c, it)
+    """generator: the remaining items of an iterator value (adaptor closures are executed as real code, in order).
+    The iterator is read through an effect: a model script is re-played after every fork or call, and a later write-back of
+    the remainder (find, nth, ...) must not change what the re-play reads here."""
+    it0 = it
+    it = yield ("effect", lambda c_: load(eng, c_, it0))
     if isinstance(it, Native) and it.kind in ("liter", "sliceiter"):
         return list(it.data[0][it.data[1]:])
     if isinstance(it, Native) and it.kind == "lvec":
@@ -1111,7 +1114,8 @@ def iter_items(eng, c, it):
     if isinstance(it, Native) and it.kind == "strvec":
         return list(it.data)
     if isinstance(it, Native) and it.kind == "kmap":
-        return list(MC.elements(eng, c, it, False))
+        els = yield ("effect", lambda c_: list(MC.elements(eng, c_, it, False)))
+        return els
     if isinstance(it, Native) and it.kind == "chars":
         items, pos = it.data[0], it.data[1] if len(it.data) > 1 else 0
         return list(items[pos:])
@@ -1352,7 +1356,7 @@ def m_iter_nth(eng, ctx, f, path, args, dty):
     p = args[0]
 
     def script(c):
-        items = yield from iter_items(eng, c, eng.load_ptr(c, p))
+        items = yield from iter_items(eng, c, p)
         n = args[1]
         if not is_concrete(n):
             raise Unsupported("Iterator::nth with a symbolic index")
@@ -1526,7 +1530,7 @@ def m_peek(eng, ctx, f, path, args, dty):
     p = args[0]
 
     def script(c):
-        items = yield from iter_items(eng, c, eng.load_ptr(c, p))
+        items = yield from iter_items(eng, c, p)
         yield ("effect", lambda c_: eng.store_ptr(c_, p, Native("liter", (tuple(items), 0))))
         if not items:
             return none()
